@@ -37,6 +37,9 @@ Rec == Tr[l]
 Ev(e) == l <= Len(Tr) /\ Rec.e = e
 Consume == l' = l + 1
 Same == UNCHANGED vars
+\* the memory_order token a record carries is compared with the transcription for information only: on this
+\* machine (TSO) a different order cannot change anything the property speaks about -> MO_DRIFT, never a rejection
+MoChk(m) == IF Rec.mo = m THEN TRUE ELSE PrintT(<<"MO_DRIFT", m, Rec.mo>>)
 
 \* concatenated executions: a new block object with its configuration
 TReset ==
@@ -91,13 +94,13 @@ TUgDone     == /\ Ev("UgDone") /\ Consume /\ Same /\ ug = 0
                /\ \A k \in 1..MaxInv : inv[k].api = "gasync" => inv[k].pc = "done"
 
 (* --------------------------- atomics on the private data --------------------------- *)
-TAF == /\ Level = "word" /\ Ev("AF") /\ Consume /\ af = Rec.old /\ af' = Rec.new /\ Rec.ok = 1
+TAF == /\ Level = "word" /\ Ev("AF") /\ Consume /\ af = Rec.old /\ af' = Rec.new /\ Rec.ok = 1 /\ MoChk("relaxed")
        /\ \/ Rec.op = "or" /\ (C_Or(Rec.t) \/ W_Or(Rec.t) \/ (wres.rc = 0 /\ W_Fin(Rec.t)))
           \/ Rec.op = "and" /\ wres.rc # 0 /\ W_Fin(Rec.t)
-TPerf == /\ Level = "word" /\ Ev("Perf") /\ Consume /\ performed = Rec.old /\ performed' = Rec.new
+TPerf == /\ Level = "word" /\ Ev("Perf") /\ Consume /\ performed = Rec.old /\ performed' = Rec.new /\ MoChk("relaxed")
          /\ \/ Rec.op = "add" /\ \E k \in 1..MaxInv : I_Inc(k, Rec.t)
             \/ Rec.op = "load" /\ (W_LoadPerf(Rec.t) \/ N_Load(Rec.t))
-TDQ == /\ Level = "word" /\ Ev("DQ") /\ Consume /\ dq = Rec.old /\ dq' = Rec.new
+TDQ == /\ Level = "word" /\ Ev("DQ") /\ Consume /\ dq = Rec.old /\ dq' = Rec.new /\ MoChk("relaxed")
        /\ \/ Rec.op = "cmpxchg" /\ S_Cas(Rec.t) /\ (Rec.ok = 1 <=> dq = 0)
           \/ Rec.op = "xchg" /\ (W_Xchg(Rec.t) \/ \E k \in 1..MaxInv : I_Xchg(k, Rec.t))
 
@@ -108,7 +111,7 @@ InGroupOp(t) == \/ pc[t] \in {"w_gcheck", "w_sleep", "w_fin", "n_reg", "n_ret"}
 TGLeave == /\ Level = "word" /\ Ev("G") /\ Rec.ncnt # Rec.ocnt /\ Consume
            /\ gcnt = Rec.ocnt /\ ggen = Rec.ogen
            /\ \E k \in 1..MaxInv : I_Leave(k, Rec.t)
-           /\ gcnt' = Rec.ncnt /\ ggen' = Rec.ngen
+           /\ gcnt' = Rec.ncnt /\ ggen' = Rec.ngen /\ MoChk("release")
 \* any other access: by a thread inside a group operation, showing the abstract count / generation, changing
 \* neither (the give-up of an rmw loop is logged after its load with the value loaded then: not compared)
 TGOther == /\ Level = "word" /\ Ev("G") /\ Rec.ncnt = Rec.ocnt /\ Consume /\ Same
